@@ -315,8 +315,12 @@ def rule_byheight(ctx):
     n = 0
     first = [s for s in f.own_nodes() if isinstance(s, ast.Assign) and norm(s.targets[0]) == 'first_tx_num']
     vals = sorted(norm(s.value) for s in first)
-    conds = [norm(pr.control_conditions(s, f.node)[0][0]) + ('' if pr.control_conditions(s, f.node)[0][1] else ' (else)') for s in first if pr.control_conditions(s, f.node)]
-    ok = vals == ['0', f'self.tx_counts[{p} - 1]'] and sorted(conds) == [f'{p} > 0', f'{p} > 0 (else)']
+    conds = []
+    for s in first:
+        cc = pr.control_conditions(s, f.node)
+        if len(cc) == 1 and q.cmp_matches(ctx, f, cc[0][0], f'{p} > 0'):
+            conds.append((norm(s.value) != '0') == cc[0][1])
+    ok = vals == ['0', f'self.tx_counts[{p} - 1]'] and conds == [True, True]
     ctx.check(ok, 'C02.BYHEIGHT', ctx.key(f, None, 'first tx number'), 'the first tx number of a block is the cumulative count of the previous block (0 for genesis)',
               f'first tx number of a block is not tx_counts[height - 1] / 0: {vals} under {conds}', loc=ctx.loc(f, f.node))
     n += 1
